@@ -5,7 +5,9 @@ Engine: vlib.sched (deterministic baton scheduler, cooperative Lock/Condition re
 
 Domain: <= 3 tasks x <= 4 operations from feed(1-6 bytes, globally distinct byte values),
 read(n>=1, timeout in {None, 0, 0.5, 2}), empty(), close(), read_ready(), len(), sleep(d)
-(passage of time); schedule = generated preemption list (quick) or all schedules with
+(passage of time); task roles: mixed / pure consumer / pure producer / "life after close" (<=2 ops, close,
+1-5 further ops incl. feeds after close, reads with every timeout kind on the closed pipe - drained or
+not -, empty, a second close, observers) / post-close ops only; schedule = generated preemption list (quick) or all schedules with
 <= k preemptions of every 2-task program over a small alphabet (thorough).
 
 Oracle: linearisation = order of each operation's *last* acquisition of the pipe lock
@@ -16,6 +18,9 @@ one).  A sequential model (bytes buffer + closed flag) is run in that order:
     concat(read+emptied)+remaining == concat(fed) in order;
   * read returns b"" only if the model is closed and drained;
   * PipeTimeout only for timed reads and only if the model buffer is empty at that point;
+  * a read that finds the model closed and drained and never parked on the condition returns b"" (it must
+    not raise PipeTimeout: "once closed and drained a read returns empty"); data fed after close is part of
+    the stream like any other (the pipe accepts it): it must come back through read/empty, in order;
   * read_ready()/len() agree with the model;
   * deadlock only if every unfinished task sits in read(timeout=None) and the model is
     open and empty (otherwise: lost wake-up);  step budget exceeded = does not terminate.
@@ -29,8 +34,9 @@ PROPERTY = "C26"
 LEVEL = "exploration"
 THOROUGH_WORKERS = 16
 RULE = (
-    "programs of 1-3 tasks (role mixed / pure consumer / pure producer) x 1-4 ops (feed 1-6 distinct bytes / read(n,timeout in None,0,0.5,2) / empty / close / "
-    "read_ready / len / sleep) run on the real BufferedPipe under the deterministic scheduler with a generated "
+    "programs of 1-3 tasks (role mixed / pure consumer / pure producer x 1-4 ops; role life-after-close: <=2 ops, close, then 1-5 of feed / "
+    "read with timeout None,0,0.5,2 / empty / close / observers on the closed pipe; role post-close ops only) over feed 1-6 distinct bytes / "
+    "read(n,timeout in None,0,0.5,2) / empty / close / read_ready / len / sleep, run on the real BufferedPipe under the deterministic scheduler with a generated "
     "preemption list (<=4 preemptions + forced picks, lock-level and optionally line-level switch points) and, in "
     "thorough, depth-first enumeration of all schedules with <=3 preemptions for every 2-task program with <=3 / <=2 ops "
     "over a 7-op alphabet; non-trivial = >=2 tasks performed pipe operations and a waiting reader was woken "
@@ -63,11 +69,35 @@ producer_op = st.one_of(
     st.tuples(st.just("close")),
     st.tuples(st.just("sleep"), st.sampled_from([0.25, 1.0, 3.0])),
 )
+# "life after close": a task that closes the pipe in the middle of its history and goes on using it - feeds that arrive after
+# close (the pipe accepts them), reads with every kind of timeout on the closed pipe (drained or not, drained by an earlier
+# read or never filled), empty(), observers, a second close.  The object carries state across these calls.
+pre_close_op = st.one_of(
+    st.tuples(st.just("feed"), st.integers(1, 6)),
+    st.tuples(st.just("feed"), st.integers(1, 6)).map(lambda v: v),
+    st.tuples(st.just("read"), st.integers(1, 8), st.sampled_from([0.0, 0.5, 2.0, None])),
+    st.tuples(st.just("empty")),
+)
+post_close_op = st.one_of(
+    st.tuples(st.just("feed"), st.integers(1, 6)),
+    st.tuples(st.just("read"), st.integers(1, 8), st.sampled_from(TIMEOUTS)),
+    st.tuples(st.just("read"), st.integers(1, 8), st.sampled_from(TIMEOUTS)).map(lambda v: v),
+    st.tuples(st.just("read"), st.integers(1, 8), st.sampled_from(TIMEOUTS)).map(lambda v: (v[0], v[1], v[2])),
+    st.tuples(st.just("empty")),
+    st.tuples(st.just("close")),
+    st.tuples(st.just("ready")),
+    st.tuples(st.just("len")),
+)
+lifecycle_task = st.tuples(st.lists(pre_close_op, max_size=2), st.lists(post_close_op, min_size=1, max_size=5)).map(
+    lambda t: list(t[0]) + [("close",)] + list(t[1])
+)
 task_st = st.one_of(
     st.lists(op_st, min_size=1, max_size=4),
-    st.lists(op_st, min_size=1, max_size=4),
+    st.lists(op_st, min_size=1, max_size=4).map(lambda v: v),
     st.lists(consumer_op, min_size=1, max_size=3),
     st.lists(producer_op, min_size=1, max_size=3),
+    lifecycle_task,
+    st.lists(post_close_op, min_size=1, max_size=4),
 )
 
 case_st = st.fixed_dictionaries(
@@ -206,6 +236,7 @@ def judge(res, records, pipe):
     done.sort(key=lambda x: x[0])
     buf = b""
     closed = False
+    late = False  # something was fed after close
     for lp, rec in done:
         op = rec["op"]
         out = rec["out"]
@@ -213,9 +244,16 @@ def judge(res, records, pipe):
         where = "t%d.%d %s" % (rec["t"], rec["i"], list(op))
         if kind == "feed":
             buf += rec["data"]
+            if closed:
+                classes.add("feed-after-close")
+                late = True
         elif kind == "close":
+            if closed:
+                classes.add("close-again")
             closed = True
         elif kind in ("read", "empty"):
+            if closed:
+                classes.add("%s-after-close:%s" % (_opname(op), "drained" if not buf else "data-buffered"))
             if out[0] == "timeout":
                 classes.add("pipe-timeout")
                 if op[2] is None:
@@ -223,6 +261,10 @@ def judge(res, records, pipe):
                 elif len(buf) > 0:
                     how = "timeout=0" if op[2] == 0 else ("after-wait" if _wake_kind(log, rec) != "none" else "without-waiting")
                     viol.append(("timeout-with-data", how, "%s raised PipeTimeout while %d bytes were buffered" % (where, len(buf))))
+                elif closed and not _waited(log, rec):
+                    # close rule: a read that finds the pipe closed and drained reports end-of-stream (b"") at once; only a read
+                    # that was already waiting when the pipe was closed may still see its own deadline first
+                    viol.append(("closed-drained-read", "timeout-instead-of-eof:%s" % _opname(op), "%s raised PipeTimeout on a closed, drained pipe without having waited" % where))
                 continue
             d = out[1]
             if not isinstance(d, bytes):
@@ -239,6 +281,8 @@ def judge(res, records, pipe):
                     continue
                 if len(d) > op[1]:
                     viol.append(("read-size", "more-than-nbytes", "%s returned %d bytes" % (where, len(d))))
+            if closed and late and len(d) > 0 and buf[: len(d)] == d:
+                classes.add("data-read-back-after-late-feed")
             if buf[: len(d)] != d:
                 bucket = "invented" if not buf else "reordered-or-lost"
                 viol.append(("fifo", "%s:%s" % (kind, bucket), "%s returned %s, model buffer %s" % (where, d.hex(), buf.hex())))
@@ -261,8 +305,9 @@ def judge(res, records, pipe):
         remaining = buf
     if remaining != buf and not any(v[0] == "fifo" for v in viol):
         viol.append(("fifo", "final-buffer", "remaining buffer %s, model %s" % (remaining.hex(), buf.hex())))
-    if bool(pipe._closed) != closed:
-        viol.append(("close", "flag", "pipe._closed=%r model=%r" % (pipe._closed, closed)))
+    flag = getattr(pipe, "_closed", None)  # observation only: absent -> the read/timeout clauses above carry the close rules
+    if flag is not None and bool(flag) != closed:
+        viol.append(("close", "flag", "pipe._closed=%r model=%r" % (flag, closed)))
     # termination
     if res.outcome == "deadlock":
         classes.add("deadlock")
@@ -319,6 +364,13 @@ def _wake_kind(log, rec):
         if ev[0] == "woken" and ev[1] == name:
             return "notify" if ev[3] else "timer"
     return "none"
+
+
+def _waited(log, rec):
+    """The operation parked on the pipe's condition at least once."""
+    end = rec["end"] if rec["end"] is not None else len(log)
+    name = "t%d" % rec["t"]
+    return any(ev[0] == "wait" and ev[1] == name for ev in log[rec["start"] : end])
 
 
 def _notified_for_nothing(log):
